@@ -18,8 +18,11 @@ import time
 VERIF = os.path.dirname(os.path.dirname(os.path.abspath(__file__)))
 REPO = os.environ.get("CGSMILES_REPO", "/repo")
 SPEC = os.path.join(VERIF, "spec")
-EVIDENCE = os.path.join(VERIF, "evidence")
-REPLAY = os.path.join(VERIF, "replay")
+# evidence/ and replay/ describe /repo.  When the harness is pointed at a scratch copy of the repository (CGSMILES_REPO,
+# used by tools/seed_matrix.py and tools/benign_matrix.py) the files go next to that copy instead.
+_OUT = VERIF if REPO == "/repo" else os.path.join(os.path.dirname(os.path.abspath(REPO)), "verif-out")
+EVIDENCE = os.path.join(_OUT, "evidence")
+REPLAY = os.path.join(_OUT, "replay")
 GUARD = "CGSMILES_VERIF"
 
 os.environ.setdefault("PBR_VERSION", "0.0.1")
